@@ -282,8 +282,16 @@ def _run_seq(task):
     log = []
     w.set_objective(var[0] + 2 * var[1] + 5, sense="minimize")
     cost[0], cost[1], offset = 1.0, 2.0, 5.0
+    queued = {}   # variable -> kind of queued request (conflicting kinds for one variable in one batch are not generated:
+                  # the relative order of the two queues is not documented)
     for op in task["ops"]:
         j = rng.randrange(len(var))
+        if op in ("qfix", "qlb"):
+            cands = [x for x in range(len(var)) if queued.get(x, op) == op]
+            if not cands:
+                continue
+            j = rng.choice(cands)
+            queued[j] = op
         if op == "qfix":
             val = rng.randrange(0, int(ub[j]) + 1)
             w.queue_fix_variable(var[j], val)
